@@ -5,7 +5,7 @@ PATCH="$1"; ID="$2"; TIER="${3:-quick}"
 if ! git -C /repo diff --quiet; then echo "/repo has uncommitted changes"; exit 3; fi
 git -C /repo apply "$PATCH" || { echo "patch does not apply"; exit 3; }
 /verif/check "$ID" "$TIER" > /tmp/try_seed.out 2>&1; RC=$?
-git -C /repo checkout -- . 
+git -C /repo checkout -- . ; git -C /repo clean -fdq   # (a change may add files)
 grep -E "^(VIOLATION|KNOWN-FINDING|MACHINERY|property=)" /tmp/try_seed.out | cut -c1-400
 echo "exit=$RC"
 # rebuild the harness against the restored tree so that no stale binary is left behind
